@@ -45,6 +45,7 @@ REWRITES = {
         (r"\btime\.Now\(\)", "verifhook.Now()", 0),
         # no time-out exists in the monitor today; one that is added is measured on the virtual clock (seed C08h)
         (r"\btime\.After\(", "verifhook.After(", 0),
+        (r"\btime\.NewTimer\(", "verifhook.NewTimer(", 0),
     ],
 }
 KEEPALIVE = {
@@ -187,20 +188,30 @@ def _patch_shims(output):
         if key is None:
             continue
         src = open(rep[key]).read().split("\n")
-        for ln in sorted(lines):
+        for ln in sorted(lines, reverse=True):   # bottom-up: replacing a function shortens the file below it only
             # find the `func` line at or above ln
-            i = ln - 1
+            i = min(ln - 1, len(src) - 1)
             while i >= 0 and not src[i].startswith("func "):
                 i -= 1
             if i < 0:
                 continue
-            # end of that function: single-line `func ... { ... }` or up to the closing brace at column 0
-            j = i
-            if not src[i].rstrip().endswith("}"):
+            gone = 'panic("verif: the identifier this export shim forwards to is gone")'
+            if src[i].rstrip().endswith("}") and "{ " in src[i]:
+                # single-line `func ... { body }`: the body starts at the first brace that is followed by a blank
+                # (`interface{}` / `map[int]struct{}` in the signature are not)
+                src[i] = src[i][:src[i].index("{ ") + 1] + " " + gone + " }"
+            else:
+                # multi-line: the signature ends with the first line (from the func line on) that ends in `{`, the body
+                # with the closing brace at column 0; the signature stays, the body becomes the panic
+                k = i
+                while k < len(src) and not src[k].rstrip().endswith("{"):
+                    k += 1
+                j = k
                 while j < len(src) and src[j] != "}":
                     j += 1
-            head = src[i][:src[i].index("{") + 1] if "{" in src[i] else src[i]
-            src[i:j + 1] = [head + ' panic("verif: the identifier this export shim forwards to is gone") }']
+                if k >= len(src) or j >= len(src):
+                    continue
+                src[k + 1:j] = ["\t" + gone]
             patched.append(f"{rel}:{ln}")
         out = os.path.join(BUILD, "shims_patched", os.path.basename(key))
         _write_if_changed(out, "\n".join(src))
